@@ -36,6 +36,7 @@ import RosuModel.Props.C02FinalDecoded
 import RosuModel.Props.C02FinalToy
 import RosuModel.Props.C07
 set_option linter.unusedSectionVars false
+set_option maxRecDepth 100000
 namespace Rosu.C02
 open Rosu Encode EncodeLines C11 RtTiming Scalar FileRt SliderRt
 
@@ -248,6 +249,14 @@ theorem logGood_snoc (md : GameMode) (log : List (GameMode × TpLine F)) (x : Ga
   rw [List.getLast?_map, ha]
   rfl
 
+instance timesChronDec [DecidableEq F] : (ts : List F) → Decidable (TimesChron ts)
+  | [] => isTrue trivial
+  | [_] => isTrue trivial
+  | _ :: b :: rest => @instDecidableAnd _ _ _ (timesChronDec (b :: rest))
+
+instance logGoodDec [DecidableEq F] (md : GameMode) (log : List (GameMode × TpLine F)) : Decidable (LogGood md log) := by
+  unfold LogGood; infer_instance
+
 /-- the log step: an accepted `[TimingPoints]` line is appended with the mode it is applied in. -/
 def logStep (sec : Section) (st : TimingPointsState F P) (log : List (GameMode × TpLine F)) (line : Str) :
     List (GameMode × TpLine F) :=
@@ -377,6 +386,14 @@ theorem decodeBytes_fileLines {σ : Type} (D : LineDecoder σ) (bs : List UInt8)
       simp only [Except.ok.injEq] at h
       exact h.symm
 
+/-- for UTF-8 text: the text's own lines, end-trimmed (C10). -/
+theorem fileLines_utf8_text (t : Str) (h : t.head? ≠ some (Char.ofNat 0xFEFF)) :
+    fileLines (utf8Encode t) = (textLines t).map trimEnd := by
+  have hb := C10.fromBom_utf8Encode t h
+  unfold fileLines
+  rw [hb, C10.fromBom_none_utf8 _ hb, List.drop_zero, C10.utf8_lines]
+  rfl
+
 /-- the accepted `[TimingPoints]` lines of a file, each with the mode in force when it was applied. -/
 def tpLogBytes (F P : Type) [Scalar F] [Scalar P] (bs : List UInt8) : List (GameMode × TpLine F) := tpLog F P (fileLines bs)
 
@@ -397,6 +414,12 @@ theorem finish_general (st : BeatmapState F P) (b : Beatmap F P) (h : st.finish 
     · injection hho with hho
       subst hho
       rfl
+
+/-- a state without pushed hit objects finishes. -/
+theorem finish_no_objects (st : BeatmapState F P) (h : st.hitObjects.core.hitObjects = []) : ∃ m, st.finish = .ok m := by
+  unfold BeatmapState.finish HitObjectsState.finish
+  rw [h]
+  simp [sortByStartTime, postProcessBreaks, finalizeObjects, bind, Except.bind, pure, Except.pure]
 
 /-- **decoded_scroll_timeline** — decode any bytes to a taiko / mania map; if the accepted `[TimingPoints]` lines were all
 applied in the map's mode and never go back in time, then at EVERY time the slider velocity in effect is the clamp of the
